@@ -11,6 +11,7 @@ from ..ref import bits
 from ..ref import stream as rs
 
 LEVEL = "exploration"
+BRANCH_TARGETS = ['pyModeS.extra.tcpclient:TcpClient.read_beast_buffer', 'pyModeS.extra.tcpclient:TcpClient.read_beast_buffer_rssi_piaware', 'pyModeS.extra.tcpclient:TcpClient.read_raw_buffer', 'pyModeS.extra.tcpclient:TcpClient.read_skysense_buffer', 'pyModeS.extra.tcpclient:TcpClient.run', 'pyModeS.streamer.source:NetSource.handle_messages']
 TECHNIQUE = 'runtime monitoring: history + model (prefix/lower/upper-bound checker after every read) over exhaustive single and double cuts of serialised streams; conservation monitor on NetSource; loopback end-to-end run of TcpClient.run()'
 LEVEL_TEXT = 'Fault-free delivery histories: every single cut and every pair of cuts of each generated stream is executed (exhaustive for those streams), multi-cuts sampled; the end-to-end tier judges the recv() segmentation actually observed.'
 LEVEL_RULE = (
@@ -386,6 +387,16 @@ def beast_specs(rng, nframes, force_1a=True):
             continue
         if c < 0.2:
             specs.append({"t": 0x34, "ts": rng.randbytes(6).hex(), "sig": rng.randrange(1, 256), "msg": rng.randbytes(rng.choice((2, 7))).hex(), "emit": False})
+            continue
+        if c < 0.27:
+            # length/format mismatch: a long-format DF inside a short Beast frame or a short-format DF inside a long one
+            # is not a complete Mode S message and must be skipped by the documented admission rule (never emitted)
+            long_ = rng.random() < 0.5
+            x, n = rand_msg(rng, not long_)
+            raw = x.to_bytes(n // 8, "big")
+            raw = (raw + rng.randbytes(7)) if long_ else raw[:7]
+            specs.append({"t": 0x33 if long_ else 0x32, "ts": rng.randbytes(6).hex(), "sig": rng.randrange(256), "msg": raw.hex().upper(),
+                          "emit": False})
             continue
         long_ = rng.random() < 0.6
         x, n = rand_msg(rng, long_)
